@@ -360,3 +360,88 @@ Theorem C14_mediabox_covers_painted_area_refuted :
     ~ rect_in (painted_bleed_area w h bl bt br bb zoom) media.
 Proof. exact mediabox_covers_painted_area_refuted. Qed.
 Print Assumptions C14_mediabox_covers_painted_area_refuted.
+
+(* ====================================== 5. compute_variable_dimension as REGENERATED from weasyprint/layout/page.py *)
+(* gen/GenPage.v on every run: the statements of compute_variable_dimension after `box_a, box_b, box_c = side_boxes`
+   (the loops over side_boxes unrolled over the three names), the @property getters of OrientedBox (sugar, outer,
+   outer_min_content_size, outer_max_content_size) as methods answered by running their own regenerated bodies
+   (GV.glinked), every `x.outer = e` printed as the body of the setter; restore_box_attributes is an oracle.
+   The adapters are attribute bags (GV.vbox): margin_a / margin_b / inner numbers or 'auto', padding_plus_border,
+   min_content_size, max_content_size numbers (inputs), box.is_generated a boolean. *)
+Require WV.base.PyLink WV.proofs.C14_gen_variable WV.proofs.C14_gen_variable_src.
+Module GV := WV.proofs.C14_gen_variable.
+Module GVS := WV.proofs.C14_gen_variable_src.
+
+(* the source computes the hand model, for every input: it ends normally with the three adapters representing the
+   model's boxes (GV.box_rep: numbers up to ==) when the model returns Ok, and raises the model's error otherwise
+   (GV.cvd_err: AssertionError / ZeroDivisionError / TypeError for ErrAssert / ErrDiv / ErrType) *)
+Theorem C14_source_compute_variable_dimension O (HO : Py.ops_ok O) (HR : GV.restore_oracle O) (n : nat)
+        avail a b c (ga gb gc : bool) :
+  Py.run (GV.glinked O GenPage.GenPage_table (S (S n))) GenPage.compute_variable_dimension_body
+    (GV.cvd_env avail a b c ga gb gc)
+    (GV.cvd_post (compute_variable_dimension avail a b c gb))
+    (GV.cvd_err (compute_variable_dimension avail a b c gb)).
+Proof. exact (GV.gen_compute_variable_dimension O HO HR n avail a b c ga gb gc). Qed.
+Print Assumptions C14_source_compute_variable_dimension.
+
+(* what the source raises, and when: only the AssertionError of `assert box_b.inner == 0`, exactly when the centre
+   box is not generated and its inner size is not 0; otherwise it ends normally and margin_a, margin_b and inner of
+   the three adapters are numbers (the final `assert 'auto' not in [...]` never fires) *)
+Theorem C14_source_variable_dimension_total O (HO : Py.ops_ok O) (HR : GV.restore_oracle O) (n : nat)
+        avail a b c (ga gb gc : bool) :
+  Py.run (GV.glinked O GenPage.GenPage_table (S (S n))) GenPage.compute_variable_dimension_body
+    (GV.cvd_env avail a b c ga gb gc)
+    (fun rho res => res = None /\ (gb = true \/ exists z, m_inner b = Some z /\ z == 0) /\
+                    GVS.bag_resolved (Py.lookup "box_a" rho) /\ GVS.bag_resolved (Py.lookup "box_b" rho) /\
+                    GVS.bag_resolved (Py.lookup "box_c" rho))
+    (fun m => m = "AssertionError"%string /\ gb = false /\ ~ (exists z, m_inner b = Some z /\ z == 0)).
+Proof. exact (GVS.source_cvd_total O HO HR n avail a b c ga gb gc). Qed.
+Print Assumptions C14_source_variable_dimension_total.
+
+(* no ZeroDivisionError for any input (the `if flex_factor_sum == 0: flex_factor_sum = 1` guards of the source) *)
+Theorem C14_source_no_division_by_zero O (HO : Py.ops_ok O) (HR : GV.restore_oracle O) (n : nat)
+        avail a b c (ga gb gc : bool) :
+  Py.run (GV.glinked O GenPage.GenPage_table (S (S n))) GenPage.compute_variable_dimension_body
+    (GV.cvd_env avail a b c ga gb gc)
+    (fun _ _ => True) (fun m => m <> "ZeroDivisionError"%string).
+Proof. exact (GVS.source_no_division_by_zero O HO HR n avail a b c ga gb gc). Qed.
+Print Assumptions C14_source_no_division_by_zero.
+
+(* C14_three_boxes_fit_when_possible about the source: the outer sizes read from the adapters after the run
+   (GVS.bag_outer = padding_plus_border + margin_a + margin_b + inner) fit *)
+Theorem C14_source_three_boxes_fit_when_possible O (HO : Py.ops_ok O) (HR : GV.restore_oracle O) (n : nat)
+        avail a b c (ga gb gc : bool) :
+  content_ok a -> content_ok b -> content_ok c ->
+  (gb = false -> exists z, m_inner b = Some z /\ z == 0) ->
+  fits_possible avail a b c gb ->
+  Py.run (GV.glinked O GenPage.GenPage_table (S (S n))) GenPage.compute_variable_dimension_body
+    (GV.cvd_env avail a b c ga gb gc)
+    (fun rho res => res = None /\
+       let oa := GVS.bag_outer (Py.lookup "box_a" rho) in let ob := GVS.bag_outer (Py.lookup "box_b" rho) in
+       let oc := GVS.bag_outer (Py.lookup "box_c" rho) in
+       if gb then oa <= (1 # 2) * (avail - ob) /\ oc <= (1 # 2) * (avail - ob) else oa + oc <= avail)
+    (fun _ => False).
+Proof. exact (GVS.source_three_boxes_fit O HO HR n avail a b c ga gb gc). Qed.
+Print Assumptions C14_source_three_boxes_fit_when_possible.
+
+(* C14_side_boxes_do_not_overlap / C14_center_box_centred about the source: placed as make_margin_boxes places them
+   (A at the start of the side, B centred, C at its end), the rectangles of the sizes left in the adapters do not
+   overlap, the centre box is centred, and with non-negative outer sizes they stay inside the side *)
+Theorem C14_source_side_boxes_do_not_overlap O (HO : Py.ops_ok O) (HR : GV.restore_oracle O) (n : nat)
+        avail a b c (ga gb gc : bool) :
+  content_ok a -> content_ok b -> content_ok c ->
+  (gb = false -> exists z, m_inner b = Some z /\ z == 0) ->
+  fits_possible avail a b c gb ->
+  Py.run (GV.glinked O GenPage.GenPage_table (S (S n))) GenPage.compute_variable_dimension_body
+    (GV.cvd_env avail a b c ga gb gc)
+    (fun rho res => res = None /\
+       let oa := GVS.bag_outer (Py.lookup "box_a" rho) in let ob := GVS.bag_outer (Py.lookup "box_b" rho) in
+       let oc := GVS.bag_outer (Py.lookup "box_c" rho) in
+       let pa := 0 in let pb := (1 # 2) * (avail - ob) in let pc := avail - oc in
+       pb + ob / 2 == avail / 2 /\
+       (gb = true -> pa + oa <= pb /\ pb + ob <= pc) /\ (gb = false -> pa + oa <= pc) /\
+       (0 <= oa -> 0 <= ob -> 0 <= oc ->
+          pa + oa <= avail /\ 0 <= pc /\ (gb = true -> 0 <= pb /\ pb + ob <= avail)))
+    (fun _ => False).
+Proof. exact (GVS.source_side_boxes_do_not_overlap O HO HR n avail a b c ga gb gc). Qed.
+Print Assumptions C14_source_side_boxes_do_not_overlap.
